@@ -115,6 +115,17 @@ synthesize_this_parameter() {
 }
 
 /**
+ * The C interface cannot call extension functions or functions that take an
+ * explicit self: write_prototype_for() and write_function_instance() skip
+ * them, so they must not be listed in the database (or in the -fptrs and
+ * -unique-names tables) either.
+ */
+bool InterfaceMakerC::
+is_remap_wrapped(FunctionRemap *remap) {
+  return !(remap->_extension || (remap->_flags & FunctionRemap::F_explicit_self));
+}
+
+/**
  * Returns the prefix string used to generate wrapper function names.
  */
 std::string InterfaceMakerC::
